@@ -8,9 +8,10 @@ structure St where
   hist : Array PD          -- hist[k] = PD state after the first k successful topology ops
   view : Option Nat        -- which state answers PD queries (none = live)
   cache : Cache
+  extra : List Region := []   -- descriptions delivered by stores in `epochraw` (known without PD ever having had them)
 
 def initPD : PD := [⟨⟨1, [], none, 0, 0⟩, 1, [1, 2, 3]⟩]
-def St.init : St := ⟨initPD, #[initPD], none, Cache.empty⟩
+def St.init : St := ⟨initPD, #[initPD], none, Cache.empty, []⟩
 
 def St.pd (s : St) : PD :=
   match s.view with
@@ -99,7 +100,22 @@ def topo (pd : PD) : List String → Option PD
 /-! ### oracles, evaluated on the model's own results -/
 
 def known (s : St) (r : Region) : Bool :=
-  s.live.any (fun p => p.r == r) || s.hist.any (fun pd => pd.any (fun p => p.r == r))
+  s.live.any (fun p => p.r == r) || s.hist.any (fun pd => pd.any (fun p => p.r == r)) || s.extra.any (· == r)
+
+/-- the by-id index names the newest held version: for every entry of the B-tree that no other entry of the same id
+    exceeds (version, then conf version), latestVersions knows the id with an epoch at least as new (offending ids) -/
+def latestLost (_before after : Cache) : List Nat :=
+  (after.sorted.filter (fun e =>
+    !(after.sorted.any (fun x => x.r.id == e.r.id &&
+        (decide (x.r.ver > e.r.ver) || (decide (x.r.ver = e.r.ver) && decide (x.r.confVer > e.r.confVer))))) &&
+    !(match latestGet after.latest e.r.id with
+      | some v' => decide (v'.ver ≥ e.r.ver) && decide (v'.confVer ≥ e.r.confVer)
+      | none => false))).map (·.r.id)
+
+def latestCheck (before after : Cache) : Bool × String :=
+  match latestLost before after with
+  | [] => (true, "")
+  | id :: _ => (false, s!"latest-index-missing:{id}")
 
 /-- a newly installed description is never older than a cached one for the same id; a description that left the
     index was replaced by one (now in the index) covering its start key with a version at least as large -/
@@ -185,7 +201,7 @@ def step (s : St) (line : String) : St × String :=
     | some k =>
       match locateKey s.cache s.pd k with
       | (c, .ok r) =>
-        ({ s with cache := c }, verdict [(r.contains k, "not-contained"), (known s r, "unknown-region"), (noRegress s.cache c, "regress")] ++ " " ++ fmtR r)
+        ({ s with cache := c }, verdict [(r.contains k, "not-contained"), (known s r, "unknown-region"), (noRegress s.cache c, "regress"), latestCheck s.cache c] ++ " " ++ fmtR r)
       | (c, .error _) => ({ s with cache := c }, "err")
     | none => (s, "bad-op")
   | ["locend", k] =>
@@ -193,7 +209,7 @@ def step (s : St) (line : String) : St × String :=
     | some k =>
       match locateEndKey (fuelOf s) s.cache s.pd k with
       | (c, .ok r) =>
-        ({ s with cache := c }, verdict [(r.containsByEnd k, "not-contained"), (known s r, "unknown-region"), (noRegress s.cache c, "regress")] ++ " " ++ fmtR r)
+        ({ s with cache := c }, verdict [(r.containsByEnd k, "not-contained"), (known s r, "unknown-region"), (noRegress s.cache c, "regress"), latestCheck s.cache c] ++ " " ++ fmtR r)
       | (c, .error _) => ({ s with cache := c }, "err")
     | none => (s, "bad-op")
   | ["locid", id] =>
@@ -201,7 +217,7 @@ def step (s : St) (line : String) : St × String :=
     | some id =>
       match locateRegionByID s.cache s.pd id with
       | (c, .ok r) =>
-        ({ s with cache := c }, verdict [(r.id == id, "wrong-id"), (known s r, "unknown-region"), (noRegress s.cache c, "regress")] ++ " " ++ fmtR r)
+        ({ s with cache := c }, verdict [(r.id == id, "wrong-id"), (known s r, "unknown-region"), (noRegress s.cache c, "regress"), latestCheck s.cache c] ++ " " ++ fmtR r)
       | (c, .error _) => ({ s with cache := c }, "err")
     | none => (s, "bad-op")
   | ["range", a, b] =>
@@ -209,7 +225,7 @@ def step (s : St) (line : String) : St × String :=
     | some a, some b =>
       match locateKeyRange (fuelOf s) s.cache s.pd a b with
       | (c, .ok rs) =>
-        ({ s with cache := c }, verdict [gapCheck (coverRanges s.cache rs [⟨a, b⟩]), (rs.all (known s), "unknown-region"), (noRegress s.cache c, "regress")] ++ " " ++ joinSp (rs.map fmtR))
+        ({ s with cache := c }, verdict [gapCheck (coverRanges s.cache rs [⟨a, b⟩]), (rs.all (known s), "unknown-region"), (noRegress s.cache c, "regress"), latestCheck s.cache c] ++ " " ++ joinSp (rs.map fmtR))
       | (c, .error _) => ({ s with cache := c }, "err")
     | _, _ => (s, "bad-op")
   | "batch" :: rs =>
@@ -218,7 +234,7 @@ def step (s : St) (line : String) : St × String :=
       if ranges.isEmpty then (s, "bad-op") else
       match batchLocateKeyRanges (fuelOf s) s.cache s.pd ranges with
       | (c, .ok ls) =>
-        ({ s with cache := c }, verdict [gapCheck (coverRanges s.cache ls ranges), (ls.all (known s), "unknown-region"), (noRegress s.cache c, "regress")] ++ " " ++ joinSp (ls.map fmtR))
+        ({ s with cache := c }, verdict [gapCheck (coverRanges s.cache ls ranges), (ls.all (known s), "unknown-region"), (noRegress s.cache c, "regress"), latestCheck s.cache c] ++ " " ++ joinSp (ls.map fmtR))
       | (c, .error _) => ({ s with cache := c }, "err")
     | none => (s, "bad-op")
   | "group" :: ks =>
@@ -228,7 +244,7 @@ def step (s : St) (line : String) : St × String :=
       match groupKeysByRegion s.cache s.pd keys with
       | (c, .ok (g, locs)) =>
         let first := match locs.head? with | some l => s!"{l.id}:{l.ver}:{l.confVer}" | none => "-"
-        ({ s with cache := c }, verdict [(groupOracle keys g locs, "bad-grouping"), (locs.all (known s), "unknown-region"), (noRegress s.cache c, "regress")] ++ s!" first={first} " ++ fmtGroups g)
+        ({ s with cache := c }, verdict [(groupOracle keys g locs, "bad-grouping"), (locs.all (known s), "unknown-region"), (noRegress s.cache c, "regress"), latestCheck s.cache c] ++ s!" first={first} " ++ fmtGroups g)
       | (c, .error _) => ({ s with cache := c }, "err")
     | none => (s, "bad-op")
   | ["listids", a, b] =>
@@ -236,7 +252,7 @@ def step (s : St) (line : String) : St × String :=
     | some a, some b =>
       match listRegionIDs (fuelOf s) s.cache s.pd a b [] with
       | (c, .ok rs) =>
-        ({ s with cache := c }, verdict [(noRegress s.cache c, "regress")] ++ " " ++ joinSp (rs.map fun r => toString r.id))
+        ({ s with cache := c }, verdict [(noRegress s.cache c, "regress"), latestCheck s.cache c] ++ " " ++ joinSp (rs.map fun r => toString r.id))
       | (c, .error _) => ({ s with cache := c }, "err")
     | _, _ => (s, "bad-op")
   | ["inval", id] =>
@@ -295,8 +311,29 @@ def step (s : St) (line : String) : St × String :=
         let settled := match locateKey c [] k, s.live.getRegion k with
           | (_, .ok r), some p => p.r == r
           | _, _ => false
-        ({ s with cache := c }, verdict [(settled, "not-settled"), (decide (failed ≤ 1), "too-many-attempts"), (noRegress s.cache c, "regress")] ++ s!" {failed}")
+        ({ s with cache := c }, verdict [(settled, "not-settled"), (decide (failed ≤ 1), "too-many-attempts"), (noRegress s.cache c, "regress"), latestCheck s.cache c] ++ s!" {failed}")
       | (c, none) => ({ s with cache := c }, "FAIL not-converged")
+    | _, _ => (s, "bad-op")
+  | "epochraw" :: id :: specs =>
+    -- OnRegionEpochNotMatch with an explicit list of current regions (what a store reports after a split that PD / the
+    -- mock cluster cannot express, e.g. a right-derived split where the surviving id moves its start key)
+    match id.toNat?, specs.mapM (fun t => match t.splitOn ":" with
+        | [i, a, b, v, cv] => do
+          let i ← i.toNat?
+          let a ← parseHex a
+          let b ← parseHex b
+          let v ← v.toNat?
+          let cv ← cv.toNat?
+          some (mkRegion i a b v cv)
+        | _ => none) with
+    | some id, some rs =>
+      match s.cache.byID id with
+      | some e =>
+        let cur : List PdRegion := rs.map fun r => ⟨r, 0, [1, 2, 3]⟩
+        match onRegionEpochNotMatch s.cache e.r.verID e.leader cur with
+        | (c, .ok _) => ({ s with cache := c, extra := rs ++ s.extra }, verdict [(noRegress s.cache c, "regress"), latestCheck s.cache c])
+        | (c, .error _) => ({ s with cache := c }, "retry")
+      | none => (s, "none")
     | _, _ => (s, "bad-op")
   | ["epochnm", id] =>
     match id.toNat? with
@@ -307,7 +344,7 @@ def step (s : St) (line : String) : St × String :=
         let cur := s.live.filter (fun p =>
           (e.r.endKey.isEmpty || Bytes.lt p.r.start e.r.endKey) && (p.r.endKey.isEmpty || Bytes.lt e.r.start p.r.endKey))
         match onRegionEpochNotMatch s.cache e.r.verID e.leader cur with
-        | (c, .ok _) => ({ s with cache := c }, verdict [(noRegress s.cache c, "regress")])
+        | (c, .ok _) => ({ s with cache := c }, verdict [(noRegress s.cache c, "regress"), latestCheck s.cache c])
         | (c, .error _) => ({ s with cache := c }, "retry")
       | none => (s, "none")
     | none => (s, "bad-op")
